@@ -145,7 +145,7 @@ theorem Flow.arun_seq (fuel : Nat) (a b : Flow) (S : List Nat) :
   simp only [arun]
 
 theorem Flow.arun_ite (fuel : Nat) (a b : Flow) (S : List Nat) :
-    arun fuel (.ite a b) S = ((arun fuel a S).1 ++ (arun fuel b S).1, (arun fuel a S).2 || (arun fuel b S).2) := by
+    arun fuel (.ite a b) S = (junion (arun fuel a S).1 (arun fuel b S).1, (arun fuel a S).2 || (arun fuel b S).2) := by
   simp only [arun]
 
 theorem Flow.arun_loop (fuel : Nat) (a : Flow) (S : List Nat) :
@@ -155,10 +155,14 @@ theorem Flow.arun_loop (fuel : Nat) (a : Flow) (S : List Nat) :
       else ([], true) := by
   simp only [arun]
 
+theorem Flow.mem_junion (S T : List Nat) (x : Nat) : x ∈ junion S T ↔ x ∈ S ∨ x ∈ T := by
+  unfold junion
+  by_cases h : x ∈ S <;> simp [h]
+
 theorem Flow.iterJoin_mono (step : List Nat → List Nat) (k : Nat) : ∀ S x, x ∈ S → x ∈ iterJoin step k S := by
   induction k with
   | zero => intro S x h; simpa [iterJoin] using h
-  | succ k ih => intro S x h; simp only [iterJoin]; exact ih _ _ (List.mem_append_left _ h)
+  | succ k ih => intro S x h; simp only [iterJoin]; exact ih _ _ ((Flow.mem_junion _ _ _).mpr (Or.inl h))
 
 /-- soundness of the body at a post-fixpoint gives soundness of the loop -/
 theorem Flow.loop_inv (a : Flow) (H Hout : List Nat)
@@ -260,10 +264,10 @@ theorem Flow.sound (fuel : Nat) (f : Flow) : ∀ (S : List Nat) (c : Nat → Boo
     cases h with
     | iteL h1 =>
       obtain ⟨hm, hn⟩ := iha S c hc hflag.1 _ _ h1
-      exact ⟨hm, fun c' hc' x hx => List.mem_append_left _ (hn c' hc' x hx)⟩
+      exact ⟨hm, fun c' hc' x hx => (Flow.mem_junion _ _ _).mpr (Or.inl (hn c' hc' x hx))⟩
     | iteR h1 =>
       obtain ⟨hm, hn⟩ := ihb S c hc hflag.2 _ _ h1
-      exact ⟨hm, fun c' hc' x hx => List.mem_append_right _ (hn c' hc' x hx)⟩
+      exact ⟨hm, fun c' hc' x hx => (Flow.mem_junion _ _ _).mpr (Or.inr (hn c' hc' x hx))⟩
   | loop a iha =>
     intro S c hc hflag m o h
     rw [Flow.arun_loop] at hflag ⊢
